@@ -148,7 +148,23 @@ fn render(form: &str, f: F, nd: usize, frac: u64, sg: char, oh: i64, om: i64, ts
     s
 }
 
+/// every 8th parse line is padded with leading and/or trailing blanks (the parsers trim their input; a seeded change that
+/// used the untrimmed length dropped the last field of such texts): the driver then demands "error or the denoted instant"
+static PAD: std::sync::atomic::AtomicUsize = std::sync::atomic::AtomicUsize::new(0);
+
 fn parse_line(out: &mut dyn Write, op: &str, text: &str, form: &str, f: F, nd: usize, frac: u64, sg: char, oh: i64, om: i64, ts: &str) {
+    let k = PAD.fetch_add(1, std::sync::atomic::Ordering::Relaxed);
+    let padded;
+    let text = if k % 8 == 7 && op != "ejsonparse" {
+        padded = match (k / 8) % 3 {
+            0 => format!(" {}", text),
+            1 => format!("{} ", text),
+            _ => format!("  {}   ", text),
+        };
+        padded.as_str()
+    } else {
+        text
+    };
     writeln!(
         out,
         "{} {} {} {} {} {} {} {} {} {} {} {} {} {} {}",
